@@ -26,6 +26,12 @@ class ToolError(Exception):
     pass
 
 
+class HarnessCrash(Exception):
+    def __init__(self, scenario, case, rc, err):
+        Exception.__init__(self, "harness died in scenario %s case %s rc=%s" % (scenario, case, rc))
+        self.scenario, self.case, self.rc, self.err = scenario, case, rc, err
+
+
 def log(*a):
     print("[check]", *a, flush=True)
 
@@ -71,6 +77,14 @@ def drv(binpath, scenario, seed, tier, outdir, shards, only=None, extra=None, ti
     if extra:
         cmd += extra
     p = subprocess.run(cmd, stdout=subprocess.PIPE, stderr=subprocess.PIPE, timeout=timeout)
+    if p.returncode < 0 or p.returncode in (3, 4, 101, 134, 139):
+        # the harness itself died inside the code under test (fault on a guard page, abort, hang watchdog)
+        case = ""
+        try:
+            case = open(os.path.join(outdir, "current_case")).read()
+        except Exception:
+            pass
+        raise HarnessCrash(scenario, case, p.returncode, p.stderr.decode()[-1500:])
     if p.returncode != 0:
         raise ToolError("drv %s failed rc=%d: %s" % (scenario, p.returncode, p.stderr.decode()[-2000:]))
     last = p.stdout.decode().strip().splitlines()[-1]
@@ -321,7 +335,19 @@ class Check:
         outdir = os.path.join(self.work, "tr-" + name + ("-" + profile if profile != "release" else "") +
                               ("-" + "-".join(features) if features else ""))
         t0 = time.time()
-        s = drv(binp, name, self.seed, self.tier, outdir, shards or 1)
+        try:
+            s = drv(binp, name, self.seed, self.tier, outdir, shards or 1)
+        except HarnessCrash as hc:
+            os.makedirs(os.path.join(ROOT, "replays"), exist_ok=True)
+            rp = os.path.join(ROOT, "replays", "%s-crash-%s.json" % (self.prop, re.sub(r'[^A-Za-z0-9_.-]', '_', hc.case)[:60]))
+            json.dump({"property": self.prop, "scenario": name, "seed": self.seed, "tier": self.tier, "case": hc.case,
+                       "rc": hc.rc, "stderr": hc.err, "profile": profile, "features": features or [],
+                       "what": "the process running the code under test died (signal / abort) in this case"},
+                      open(rp, "w"), indent=1)
+            print("VIOLATION property=%s replay=%s" % (self.prop, rp), flush=True)
+            print("  case=%s rules=process_died_rc_%s" % (hc.case, hc.rc), flush=True)
+            self.violations.append({"case": hc.case, "rules": ["process_died"], "replay": rp})
+            return None
         # re-shard by volume: one shard per ~6 MB, at most maxpar
         total = sum(s["bytes"])
         want = max(1, min(maxpar, total // 6_000_000 + 1))
@@ -469,6 +495,7 @@ def main():
         return 2
     if a[0] == "setup":
         build_harness("release")
+        build_harness("release", ["simd"])
         # sanity: SANY parses every spec
         return 0
     prop = a[0]
